@@ -53,10 +53,13 @@ let print_obs stage (o : float obs) =
    | OTime (Some t) -> print_string " TM"; pv t);
   print_newline ()
 
+(* argv[1] = 1: the tree under test has the repair of patches/C23_extreme_setvalue.diff (model flag fx) *)
+let fx = Array.length Sys.argv > 1 && Sys.argv.(1) = "1"
+
 let do_op (o : float op) =
   match !state with
   | None -> failwith "op before BEGIN"
-  | Some s -> let (s', ob) = step fops s o in state := Some s'; print_obs (int_of_nat s'.s_env.e_stage) ob
+  | Some s -> let (s', ob) = step fops fx s o in state := Some s'; print_obs (int_of_nat s'.s_env.e_stage) ob
 
 let () =
   try
